@@ -68,6 +68,7 @@ Proof.
       * destruct (put_new_ok _ _ _ Hkv Hpos Hg Hp) as (_ & Hext & _). eexists; exact Hext.
       * exists none_removed; apply ext_refl.
   - destruct (c_w c); try discriminate. unfold with_c in H; inversion H; subst; exists none_removed; apply ext_refl.
+  - destruct (c_pc c); try discriminate. unfold with_c in H; inversion H; subst; exists none_removed; apply ext_refl.
 Qed.
 
 (* a waiting contender keeps its record under every step that leaves it waiting *)
